@@ -111,11 +111,43 @@ def decSubmitTx (m : Mode) (t : Cbor) : Ans :=
     | _, _ => .rej
   | _ => .rej
 
+/-- an item as `[]any` sees it: only the self-described tag is stripped -/
+def anyUint (m : Mode) (t : Cbor) (bound : Nat) : Option Nat :=
+  match (if m.tags then strip55799 t else t) with
+  | .int false _ n => if n < bound then some n else none
+  | _ => none
+
+/-- local-tx-monitor `MsgReplyNextTx.UnmarshalCBOR` (after the `fix:` commit): `[6]` or
+    `[6, [era, #6.24(bytes)]]`, decoded generically (`[]any`), so no tag skipping / null coercion on
+    the items; before the fix extra items of both lists were silently dropped (`extra = true`). -/
+def decReplyNextTx (extra : Bool) (m : Mode) (t : Cbor) : Option Val :=
+  match structItems m t with
+  | some (ty :: rest) =>
+    match anyUint m ty 256 with
+    | none => none
+    | some vty =>
+      match rest with
+      | [] => some (.s [.u vty, .s [.u 0, .h []]])
+      | w :: more =>
+        if !extra && !more.isEmpty then none else
+        match items (if m.tags then strip55799 w else w) with
+        | some (era :: tx :: more2) =>
+          if !extra && !more2.isEmpty then none else
+          match anyUint m era 256, (if m.tags then strip55799 tx else tx) with
+          | some vera, .tag _ 24 x =>
+            (match strPayload false x with
+             | some b => some (.s [.u vty, .s [.u vera, .h b]])
+             | none => none)
+          | _, _ => none
+        | _ => none
+  | _ => none
+
 /-- messages modelled here instead of by a regenerated shape -/
 def special (name : String) : Option (Mode → Cbor → Ans) :=
   if name == "RollForwardNtC" then some (fun m t => .ofOption (decRollForwardNtC m t))
   else if name == "RollForwardNtN" then some (fun m t => .ofOption (decRollForwardNtN m t))
   else if name == "SubmitTx" then some decSubmitTx
+  else if name == "ReplyNextTx" then some (fun m t => .ofOption (decReplyNextTx false m t))
   else none
 
 end GV.Model.MsgWrappers
